@@ -680,7 +680,7 @@ fn words(len: usize, nsym: usize, f: &mut dyn FnMut(&[usize])) {
 
 pub fn run(tier: Tier) -> Report {
     let rep = Report::new("C07", tier);
-    rep.set_rule("(a) every word over {predict, update(still|drift|jump|shrink|grow|jitter)} of length <= L (quick 5, thorough 7) and every word of length <= 4 repeated to 300 steps, for box / point / 2-point-vector filters x 3 weight pairs x initial measurements, plus small scales (boxes of height 0.04 / 0.02 in normalised coordinates, a point filter with weights 1e-3 / 1.25e-4) (the vector filter additionally on vectors that mix a late-initiated point with an older one, both orders, and on long vectors of 17 ... 500 (thorough 5000) distinct points, element by element); rotated tracks also receive angle-less measurements (jitter at even positions); every step compared with the f64 textbook step computed from the implementation's own pre-state. (b) cost(d,true) == 100 - cost(d,false) and the gate value for f32 bit patterns d >= 0 (thorough: all 2^31; quick: stride + neighbourhoods of every chi-square table entry). Distinct = words / patterns enumerated without repetition.");
+    rep.set_rule("(a) every word over {predict, update(still|drift|jump|shrink|grow|jitter)} of length <= L (quick 5, thorough 7) and every word of length <= 4 repeated to 300 steps, for box / point / 2-point-vector filters x 3 weight pairs x initial measurements, plus small scales (boxes of height 0.04 / 0.02 in normalised coordinates, a point filter with weights 1e-3 / 1.25e-4) and boxes with a signed (-0.3, -1.4) or unwrapped (7.0) angle (the vector filter additionally on vectors that mix a late-initiated point with an older one, both orders, and on long vectors of 17 ... 500 (thorough 5000) distinct points, element by element); rotated tracks also receive angle-less measurements (jitter at even positions); every step compared with the f64 textbook step computed from the implementation's own pre-state. (b) cost(d,true) == 100 - cost(d,false) and the gate value for f32 bit patterns d >= 0 (thorough: all 2^31; quick: stride + neighbourhoods of every chi-square table entry). Distinct = words / patterns enumerated without repetition.");
     rep.assume("f64 reference recurrence with the library's documented noise model; tolerances k*2^-24*block scale");
     let ctx = Ctx { rep: &rep, steps: AtomicU64::new(0), words: AtomicU64::new(0) };
 
@@ -727,15 +727,24 @@ pub fn run(tier: Tier) -> Report {
     // small scales: boxes in frame-normalised coordinates (height 0.04: innovation variances of a few 1e-6) and a
     // point filter with small weights - the textbook recurrence has no absolute scale
     {
-        let tiny_boxes = [Universal2DBox::new(0.5, 0.4, None, 0.5, 0.04), Universal2DBox::new(0.25, 0.75, Some(0.3), 2.0, 0.02)];
+        // ... and boxes whose angle is given in a signed convention (-0.3, -1.4) or unwrapped past a full turn (7.0):
+        // the filter is linear in the angle, it has no business folding it
+        let tiny_boxes = [
+            Universal2DBox::new(0.5, 0.4, None, 0.5, 0.04),
+            Universal2DBox::new(0.25, 0.75, Some(0.3), 2.0, 0.02),
+            Universal2DBox::new(300.0, 120.0, Some(-0.3), 2.0, 40.0),
+            Universal2DBox::new(40.0, 60.0, Some(-1.4), 0.4, 8.0),
+            Universal2DBox::new(500.0, 200.0, Some(7.0), 1.5, 20.0),
+        ];
+        let n_extra = tiny_boxes.len();
         let small_w: (f32, f32) = (0.001, 0.000125);
         let sdepth = depth.min(4);
-        par_for(3 * sdepth, 1, |j| {
+        par_for((n_extra + 1) * sdepth, 1, |j| {
             let (which, len) = (j / sdepth, j % sdepth + 1);
-            if which < 2 {
+            if which < n_extra {
                 let init = &tiny_boxes[which];
                 let (pw, vw) = weights[0];
-                let cfg = json!({"filter":"box","weights":[pw,vw],"init":[init.xc,init.yc,init.angle,init.aspect,init.height],"family":"small scale"});
+                let cfg = json!({"filter":"box","weights":[pw,vw],"init":[init.xc,init.yc,init.angle,init.aspect,init.height],"family":if which < 2 { "small scale" } else { "signed / unwrapped angle" }});
                 words(len, 7, &mut |w| {
                     ctx.words.fetch_add(1, Ordering::Relaxed);
                     run_box_word(&ctx, pw, vw, init, w, &cfg);
